@@ -3,7 +3,10 @@
 (* of trusted certificates are the states; the table of admission options (2160 combinations) x the two endpoints   *)
 (* is evaluated inside every state.  The laws of ChainAdmission are invariants; every state is exported (CASE)      *)
 (* with the specification's verdicts for every option combination, the option table once (OPTS).                   *)
-(* The hierarchy, the chains and the option table are those of ChainAdmissionWorld.                               *)
+(* The hierarchy, the chains and the option table are those of ChainAdmissionWorld.  The perturbations include    *)
+(* the FORMS of an entry: every submitted certificate, at every position, in every encoding (DER, padded serial /  *)
+(* version INTEGER, padded length) followed by every trailer (nothing, one octet, several, an element, a second    *)
+(* certificate).                                                                                                  *)
 (* MCChainAdmissionCfg.tla adds the options AS CONFIGURED (lists of names) on the chains that are in order.        *)
 EXTENDS ChainAdmissionWorld
 
@@ -28,6 +31,10 @@ Laws == LET okv == ChainOK(rc, TT)
            \* Admit => the path starts with the submitted leaf, contains the submission in order, ends in the trusted pool
            /\ (\E e \in Endpoints : Adm(okv, v, e) # {}) =>
                  \A p \in Paths(rc, TT) : p[1] = rc[1] /\ SubSeq(p, 1, Len(rc)) = rc /\ Last(p) \in TT
+           \* an entry that is a certificate plus something, or written with a padded length, is no certificate; a certificate
+           \* written with a padded INTEGER is one, and the paths carry it as submitted (on the submissions as they are: every
+           \* position x encoding x trailer)
+           /\ (cs.tags = <<>> => \A i \in 1..Len(rc), e \in Encs, t \in Trailers : EntryLaw(rc, TT, i, e, t))
            \* the parameterized verdicts are the verdicts (spot check of the definitional identity)
            /\ \A k \in {1, NOpts} : /\ (k \in v) = ValidateOK(rc, TT, OptTab[k])
                                      /\ \A e \in Endpoints : (k \in Adm(okv, v, e)) = Admit(rc, TT, OptTab[k], e)
